@@ -82,7 +82,7 @@ impl<'a> Gen<'a> {
     fn key(&mut self, m: &ChainM, me: &str) -> Vec<u8> {
         if self.p.crafted_keys && self.pct(40) {
             let others: Vec<&String> = m.st.contracts.keys().filter(|a| a.as_str() != me).collect();
-            return match self.rng.below(5) {
+            return match self.rng.below(6) {
                 0 => [rawstate::prefix(&[b"bank"]), rawstate::lp(b"balances"), self.users[0].as_bytes().to_vec()].concat(),
                 1 if !others.is_empty() => {
                     let o = self.rng.pick(&others).to_string();
@@ -93,6 +93,15 @@ impl<'a> Gen<'a> {
                     [rawstate::prefix(&[b"wasm"]), rawstate::lp(format!("contract_data/{}", o).as_bytes()), b"a".to_vec()].concat()
                 }
                 3 => [rawstate::prefix(&[b"staking"]), b"unbonding_queue".to_vec()].concat(),
+                // its own raw prefix, whole (wasm namespace + its contract namespace, with and without a tail) or the
+                // inner level only: to the contract these are keys like any other
+                _ if self.pct(50) => {
+                    let mut k = [rawstate::prefix(&[b"wasm"]), rawstate::lp(format!("contract_data/{}", me).as_bytes())].concat();
+                    if self.pct(50) {
+                        k.push(b'a');
+                    }
+                    k
+                }
                 _ => rawstate::lp(format!("contract_data/{}", me).as_bytes()),
             };
         }
